@@ -3,6 +3,7 @@
 package core2
 
 import (
+	"bytes"
 	"fmt"
 	"runtime"
 	"sort"
@@ -45,7 +46,7 @@ import (
 
 type c06Foreign struct {
 	Query bool `json:"q"`    // foreign query (else foreign user event)
-	Jump  int  `json:"jump"` // its LTime = previous foreign LTime of that kind + Jump
+	Jump  int  `json:"jump"` // its LTime = previous foreign LTime of that kind + Jump; -1: the node's own clock of that kind as it reads at that moment (a peer that is exactly level with the node)
 	// Form: events: 1 = delivered in the recent-event list of a push/pull state
 	// exchange instead of by gossip; queries: 1 = with a node filter that does not
 	// select this node, 2 = with the no-rebroadcast flag, 3 = both
@@ -56,7 +57,9 @@ type c06Case struct {
 	// per goroutine: call kinds. 0 = UserEvent, 1 = Query, 2 = UserEvent with the
 	// coalesce flag, 3 = Query asking for acks, relay factor 1, node filter that
 	// does not select the node itself, 4 = Query with node and tag filters that
-	// select the node itself
+	// select the node itself, 5 = UserEvent that passes the size test on name +
+	// payload but is too large once encoded (the call fails after it has taken
+	// its Lamport time), 6 = Query that is too large once encoded
 	Workers [][]int      `json:"workers"`
 	Foreign []c06Foreign `json:"foreign"`
 	// SlowSinkUs > 0: the metrics sink takes this long for the per-event /
@@ -94,6 +97,28 @@ func genC06(t *rapid.T) c06Case {
 	if rapid.IntRange(0, 5).Draw(t, "slow-sink?") == 0 {
 		c.SlowSinkUs = rapid.SampledFrom([]int{20, 100}).Draw(t, "slow-sink")
 	}
+	// One round in four mixes in calls that fail after they have taken their
+	// Lamport time (too large once encoded), next to peers that are exactly level
+	// with the node's clock: a failed call must not take anything back that a
+	// message processed in the meantime relies on.
+	if rapid.IntRange(0, 3).Draw(t, "failing-calls") == 0 {
+		for _, w := range c.Workers {
+			for j := range w {
+				if rapid.IntRange(0, 2).Draw(t, "fail") == 0 {
+					if w[j] == 1 || w[j] == 3 || w[j] == 4 {
+						w[j] = 6
+					} else {
+						w[j] = 5
+					}
+				}
+			}
+		}
+		for i, n := 0, rapid.IntRange(10, 40).Draw(t, "level-peers"); i < n; i++ {
+			f := c06Foreign{Query: rapid.Bool().Draw(t, "lq"), Jump: -1}
+			at := rapid.IntRange(0, len(c.Foreign)).Draw(t, "lat")
+			c.Foreign = append(c.Foreign[:at:at], append([]c06Foreign{f}, c.Foreign[at:]...)...)
+		}
+	}
 	return c
 }
 
@@ -106,6 +131,7 @@ type c06Op struct {
 	app        *serf.LamportTime // local calls: the time of the copy delivered to the application, when one was
 	tag        string
 	err        error
+	mustFail   bool // a call that is too large once encoded
 }
 
 func bodyC06(c c06Case, x *vkit.Ctx) {
@@ -137,7 +163,22 @@ func bodyC06(c c06Case, x *vkit.Ctx) {
 			ops := make([]*c06Op, 0, len(calls))
 			<-start
 			for i, k := range calls {
-				op := &c06Op{query: k == 1 || k == 3 || k == 4, local: true, tag: fmt.Sprintf("w%d-%d", g, i)}
+				op := &c06Op{query: k == 1 || k == 3 || k == 4 || k == 6, local: true, tag: fmt.Sprintf("w%d-%d", g, i)}
+				if k == 5 || k == 6 {
+					// too large once encoded: the call must fail (and carries no time)
+					op.mustFail = true
+					if k == 5 {
+						op.begin = stamp.Add(1)
+						op.err = n.Serf.UserEvent("c06", bytes.Repeat([]byte{'x'}, n.Conf.UserEventSizeLimit-8), false)
+						op.end = stamp.Add(1)
+					} else {
+						op.begin = stamp.Add(1)
+						_, op.err = n.Serf.Query("c06", bytes.Repeat([]byte{'x'}, n.Conf.QuerySizeLimit-4), &serf.QueryParam{Timeout: 5 * time.Millisecond})
+						op.end = stamp.Add(1)
+					}
+					ops = append(ops, op)
+					continue
+				}
 				if op.query {
 					p := &serf.QueryParam{Timeout: 5 * time.Millisecond}
 					switch k {
@@ -174,6 +215,14 @@ func bodyC06(c c06Case, x *vkit.Ctx) {
 			jump := uint64(min(max(f.Jump, 0), 1<<41))
 			var buf []byte
 			pushPull := false
+			if f.Jump < 0 {
+				_, ec, qc := n.Serf.VerifClocks()
+				if f.Query {
+					qL, jump = max(qL, uint64(qc)), 0
+				} else {
+					evL, jump = max(evL, uint64(ec)), 0
+				}
+			}
 			if f.Query {
 				qL += jump
 				op.ltime = serf.LamportTime(qL)
@@ -251,8 +300,17 @@ func bodyC06(c c06Case, x *vkit.Ctx) {
 		}
 	}
 	var all []*c06Op
+	failedCalls := 0
 	for _, ops := range results {
 		for _, op := range ops {
+			if op.mustFail {
+				if op.err == nil {
+					x.Violationf("oversize-call-accepted", "call %s: a message that is too large once encoded was accepted", op.tag)
+					return
+				}
+				failedCalls++
+				continue
+			}
 			if op.local && op.err != nil {
 				x.Inconclusive("a local call failed: " + op.err.Error())
 				return
@@ -390,6 +448,9 @@ func bodyC06(c c06Case, x *vkit.Ctx) {
 			}
 			x.Labelf("local-%s-calls=%d+", strings.ReplaceAll(kind, " ", "-"), len(locals)/100*100)
 		}
+	}
+	if failedCalls > 0 {
+		x.Label("calls-that-fail-after-taking-their-time")
 	}
 }
 
